@@ -4,7 +4,10 @@ go 1.22
 
 require (
 	github.com/anishathalye/porcupine v1.3.0
+	github.com/sourcegraph/jsonrpc2 v0.2.0
 	github.com/yuin/goldmark v1.4.13
+	go.etcd.io/bbolt v1.3.10
+	pkg.nimblebun.works/go-lsp v1.1.0
 	src.elv.sh v0.0.0
 )
 
